@@ -413,6 +413,8 @@ def run(rep):
     from ..engines import arrays
     arrays.soh_rule(rep, f, "C13.d", lambda fn: "/dom/impl/" in fn["file"])
     diag.run(rep, f, "C13")
+    from ..engines import dispatch
+    dispatch.run(rep, f, "C13")
     rep.undecided += ["equality with a reference DOM over operation histories", "offset arithmetic results, attribute map ordering",
                       "ownerDocument uniformity after adoptNode/importNode of deep subtrees"]
     rep.assumptions += ["a guard is an `if` whose controlled statement is exactly one `throw DOMException(CODE ...)`"]
